@@ -1197,6 +1197,9 @@ func runOnce(d Desc) (res mon.Result, earlyPattern bool) {
 		prevKind = it.K
 	}
 	for c := range cuts {
+		if c >= len(ref.state) { // reactive server gave up before this segment
+			continue
+		}
 		switch ref.state[c] {
 		case 1:
 			obs["segment_cut_between_iac_and_next"]++
